@@ -1,1 +1,3 @@
 pub mod bits;
+pub mod dsv;
+pub mod text;
